@@ -185,15 +185,17 @@ static void apis_strings(void)
             "$argon2id$v=19$m=4294967295,t=4294967295,p=4294967295$AAAAAAAAAAAAAAAAAAAAAA$AAAAAAAAAAAAAAAAAAAAAA", "$argon2id$v=19$m=99999999999,t=1,p=1$AAAA$AAAA", "$argon2id$m=8,t=1,p=1$AAAAAAAAAAAAAAAAAAAAAA$AAAAAAAAAAAAAAAAAAAAAAAAAAAAAAAAAAAAAAAAAAA" };
         unsigned h; for (h = 0; h < sizeof HAND / sizeof HAND[0]; h++) { char *p = xstr(HAND[h], strlen(HAND[h])); CALL("crypto_pwhash_str_*(hand)", h, 0, 0);
             crypto_pwhash_str_verify(p, "pw", 2); crypto_pwhash_str_needs_rehash(p, 1, 8192); crypto_pwhash_scryptsalsa208sha256_str_needs_rehash(p, 32768, 16777216); if (strlen(HAND[h]) < 14) crypto_pwhash_scryptsalsa208sha256_str_verify(p, "pw", 2); xfree(); } }
-    /* hex / base64 texts: every text of length <= 3 over a class alphabet, exact-size, with and without ignore set and end pointer */
-    {   static const unsigned char CLS[9] = { 'A', 'Q', 'f', '9', '=', ' ', ':', 0x00, 0xE9 }; unsigned a, b, c2, len; unsigned char t3[3]; size_t bl; const char *e; int v;
-        for (len = 0; len <= 3; len++) for (a = 0; a < 9; a++) for (b = 0; b < (len > 1 ? 9u : 1u); b++) for (c2 = 0; c2 < (len > 2 ? 9u : 1u); c2++) {
-            unsigned char *txt, *o; t3[0] = CLS[a]; t3[1] = CLS[b]; t3[2] = CLS[c2];
-            if (len == 0 && a) continue;
-            CALL("codecs(short texts)", len, a * 81 + b * 9 + c2, 0); txt = xb(len, 0, -1); memcpy(txt, t3, len); o = xout(3, 1);
-            sodium_hex2bin(o, 3, (const char *) txt, len, NULL, &bl, &e); sodium_hex2bin(o, 1, (const char *) txt, len, " :", &bl, NULL); sodium_hex2bin(o, 0, (const char *) txt, len, " :", NULL, &e);
-            for (v = 1; v <= 7; v += 2) { sodium_base642bin(o, 3, (const char *) txt, len, NULL, &bl, &e, v); sodium_base642bin(o, 1, (const char *) txt, len, " :", &bl, NULL, v); sodium_base642bin(o, 0, (const char *) txt, len, "", NULL, &e, v); }
-            xfree(); } }
+    /* hex / base64 texts: every text of length <= 5 over a class alphabet, exact-size (the byte after the text is a red zone / guard page), with and
+     * without ignore set and end pointer */
+    {   static const unsigned char CLS[9] = { 'A', 'Q', 'f', '9', '=', ' ', ':', 0x00, 0xE9 }; unsigned len; unsigned long idx, cnt; unsigned char t5[5]; size_t bl; const char *e; int v, k2;
+        for (len = 0; len <= 5; len++) { for (cnt = 1, k2 = 0; k2 < (int) len; k2++) cnt *= 9;
+          for (idx = 0; idx < cnt; idx++) {
+            unsigned char *txt, *o; unsigned long x = idx; for (k2 = 0; k2 < (int) len; k2++) { t5[k2] = CLS[x % 9]; x /= 9; }
+            CALL("codecs(short texts)", len, idx, 0); txt = xb(len, 0, -1); memcpy(txt, t5, len); o = xout(4, 1);
+            sodium_hex2bin(o, 4, (const char *) txt, len, NULL, &bl, &e); sodium_hex2bin(o, 1, (const char *) txt, len, " :", &bl, NULL); sodium_hex2bin(o, 0, (const char *) txt, len, " :", NULL, &e);
+            for (v = 1; v <= 7; v += 2) { sodium_base642bin(o, 4, (const char *) txt, len, NULL, &bl, &e, v); sodium_base642bin(o, 1, (const char *) txt, len, " :", &bl, NULL, v); sodium_base642bin(o, 0, (const char *) txt, len, "", NULL, &e, v);
+                                          if (len >= 4) sodium_base642bin(o, 4, (const char *) txt, len, " :", &bl, &e, v); }
+            xfree(); } } }
 }
 
 
